@@ -73,7 +73,7 @@ class Ctx:
     def kani_results(self, unit, harnesses, timeout, playback=False):
         todo = [h for h in harnesses if (unit, h) not in self._kani or playback]
         if todo:
-            u = kani.UNITS[unit]
+            u = kani.unit_def(unit)
             gen_text = self.gen_text(u['gen']) if u.get('gen') else ''
             t0 = time.time()
             res = kani.run_unit(unit, todo, self.repo(), gen_text=gen_text, timeout=timeout, playback=playback)
@@ -144,6 +144,10 @@ def collect(prop, ctx):
                     rec['failed'] = [{'what': d['head'][7:], 'clause': d['clause'], 'line': d['line']} for d in diags if d['kind'] == 'verify']
                     rec['detail'] = '\n\n'.join(d['text'] for d in diags)[:6000]
             obs.append(rec)
+    # ---- syntactic scans (feature-gated code sites)
+    for sc in spec.get('scan', []):
+        from . import scan
+        obs.extend(scan.run(sc, ctx.repo()))
     # ---- kani
     by_unit = {}
     for k in spec.get('kani', []):
@@ -253,7 +257,7 @@ def check(prop, tier, seed, verbose=False, list_only=False):
     known = load_known()
     failed = [o for o in obs if o['status'] == 'failed']
     undec = [o for o in obs if o['status'] == 'undecided']
-    proved = [o for o in obs if o['status'] == 'proved' and not o.get('bounded')]
+    proved = [o for o in obs if o['status'] == 'proved' and not o.get('bounded') and o['engine'] != 'scan']
     bounded = [o for o in obs if o['status'] == 'proved' and o.get('bounded')]
     deferred = [o for o in obs if o['status'] == 'deferred']
     os.makedirs(os.path.join(common.OUT, 'replays'), exist_ok=True)
@@ -342,6 +346,7 @@ def write_evidence(prop, tier, seed, spec, obs, proved, bounded, deferred, faile
             'bounded_obligations': [{'name': o['name'], 'bound': o['bounded'], 'status': o['status']} for o in bounded],
             'bounded_count_not_in_discharged': len(bounded),
             'deferred': [{'name': o['name'], 'why': o.get('why')} for o in deferred],
+            'syntactic_scans_not_counted': [{'name': o['name'], 'status': o['status'], 'sites': o.get('checks')} for o in obs if o['engine'] == 'scan'],
             'bounded_standin_runs': getattr(ctx, 'standin', []),
             'failed': [{'name': o['name'], 'failed': o.get('failed'), 'known_finding': o.get('known_finding', False)} for o in failed],
             'undecided': [{'name': o['name'], 'why': o.get('why')} for o in undec],
